@@ -382,6 +382,15 @@ def family_docs(thorough=False):
                                                                      bt=Fraction(bt)), kids=[_para(4, 2)])
                 out.append((f'fixed-pt{pt}-bt{bt}-n{lines_before}-f{foot}',
                             _doc(100 + 10 * foot, [_para(1, lines_before, calls), fixed, _para(5, 2)])))
+    # H. (both tiers) an empty zero-height spacer whose margin crosses the page bottom / the footnote area top, last in
+    #    the document: it must not make a page of its own
+    for margin in (10, 20):
+        for lines_before in (8, 9):
+            for foot in (0, 1):
+                calls = [_call(1, 1, 1, 10)] if foot else []
+                spacer = dict(kind='block', id=3, st=pm.default_style(height=Fraction(0), mt=Fraction(margin)), kids=[])
+                out.append((f'spacer-m{margin}-n{lines_before}-f{foot}',
+                            _doc(100 + 10 * foot, [_para(1, lines_before, calls), spacer])))
     # G. (both tiers) `@page <name> { @footnote { … } }`: footnotes postponed from an unnamed page land in the area of
     #    a named page type with another style (taller top margin, max-height), and back
     for mt, max_h in ((6, 'inf'), (0, 15), (4, 25)):
